@@ -65,9 +65,12 @@ type Case struct {
 	Tiled    bool        `json:"tiled,omitempty"`   // one chunk per piece; otherwise the reference chunker cuts
 	NoState  bool        `json:"nostate,omitempty"` // StateSaveFile is never set
 	FailGets []int       `json:"failgets,omitempty"`
-	Perturb  []int       `json:"perturb,omitempty"` // consumed round-robin at "sparse.fetched" and at store calls while readers run concurrently
-	Start    Op          `json:"start"`
-	Ops      []Op        `json:"ops"`
+	// FaultKinds: what injected GetChunk failures look like; call number n uses entry n%len
+	// (0 plain, 1 fmt %w io.EOF, 2 pkg/errors.Wrap(io.EOF), 3 Wrap(*url.Error{io.EOF}), 4 io.ErrUnexpectedEOF, 5 ChunkMissing, 6 ChunkInvalid)
+	FaultKinds []int `json:"faultkinds,omitempty"`
+	Perturb    []int `json:"perturb,omitempty"` // consumed round-robin at "sparse.fetched" and at store calls while readers run concurrently
+	Start      Op    `json:"start"`
+	Ops        []Op  `json:"ops"`
 }
 
 // layout expands the blob and cuts it into chunks.
@@ -185,7 +188,7 @@ func genRead(t *rapid.T, spans []ref.Span, L int64, mx int) Read {
 	if l > 1<<19 {
 		l = 1 << 19
 	}
-	return Read{H: rapid.IntRange(0, 2).Draw(t, "h"), Off: off, Len: l, Node: rapid.IntRange(0, 3).Draw(t, "node") == 0}
+	return Read{H: rapid.IntRange(0, 2).Draw(t, "h"), Off: off, Len: l, Node: rapid.IntRange(0, 4).Draw(t, "node") < 2}
 }
 
 func genRestart(t *rapid.T, preload bool) Op {
@@ -228,6 +231,9 @@ func genCase(t *rapid.T) Case {
 	for i, n := 0, rapid.IntRange(0, 4).Draw(t, "nfail"); i < n; i++ {
 		c.FailGets = append(c.FailGets, rapid.IntRange(1, 12).Draw(t, "failget"))
 	}
+	for i, n := 0, rapid.IntRange(0, 3).Draw(t, "nkinds"); i < n; i++ {
+		c.FaultKinds = append(c.FaultKinds, rapid.SampledFrom([]int{fkPlain, fkFmtEOF, fkPkgEOF, fkURLEOF, fkURLEOF, fkUnexpEOF, fkMissing, fkInvalid}).Draw(t, "faultkind"))
+	}
 	for i, n := 0, rapid.IntRange(0, 8).Draw(t, "nperturb"); i < n; i++ {
 		c.Perturb = append(c.Perturb, rapid.IntRange(0, 4).Draw(t, "perturb"))
 	}
@@ -269,7 +275,7 @@ func genCase(t *rapid.T) Case {
 				if focus >= 0 && rapid.IntRange(0, 9).Draw(t, "onfocus") < 6 {
 					s := spans[focus]
 					r = Read{H: rapid.IntRange(0, 2).Draw(t, "h"), Off: int64(s.Start) + int64(rapid.IntRange(-2, int(s.Len)).Draw(t, "fd")),
-						Len: rapid.IntRange(1, int(s.Len)+2).Draw(t, "fl"), Node: rapid.IntRange(0, 3).Draw(t, "node") == 0}
+						Len: rapid.IntRange(1, int(s.Len)+2).Draw(t, "fl"), Node: rapid.IntRange(0, 4).Draw(t, "node") < 2}
 					if r.Off < 0 {
 						r.Off = 0
 					}
@@ -349,14 +355,14 @@ func run(c Case) (o hx.Outcome) {
 var spec = &hx.Spec[Case]{
 	ID:    "C10",
 	Level: "exploration",
-	Rule: "cases = (blob incl. null chunks/empty/one chunk, chunking by reference chunker or arbitrary tiling, store with generated transient GetChunk failures and missing chunks, " +
+	Rule: "cases = (blob incl. null chunks/empty/one chunk, chunking by reference chunker or arbitrary tiling, store with generated transient GetChunk failures of generated error kinds and missing chunks, " +
 		"history of ReadAt on several handles incl. zero-length and at/past-the-end reads, concurrent read batches with perturbation at sparse.fetched, WriteState, " +
 		"restarts with state file kept/deleted/earlier save/garbage/wrong length x cache file kept/deleted/truncated/extended, restarts with pre-load n=1..4, reads through the go-fuse node); " +
 		"non-trivial = some read touched a chunk whose earlier fetch failed, or ran concurrently with another read of the same not-yet-loaded chunk, or followed a restart that " +
 		"found a matching non-empty saved state; distinct by the full case (history included)",
 	Assumptions: []string{
 		"oracle: direct comparison with the generated blob; chunk IDs by crypto/sha512 directly",
-		"store = in-memory fake with injected failures (error returns and missing chunks); it never returns wrong data",
+		"store = in-memory fake with injected failures (error returns of seven kinds: plain, three that wrap io.EOF incl. the HTTP store's dropped-connection error, io.ErrUnexpectedEOF, ChunkMissing, ChunkInvalid; and chunks really missing); it never returns wrong data and never a bare io.EOF",
 		"cache files handed to a restart were always produced by an earlier instance for the same index (then kept, deleted, truncated or extended); state files restored from an earlier save belong to the same cache file generation; state files of the right length with arbitrary bits are not generated as save-state (only as init-state for pre-loading)",
 		"the go-fuse node is driven in-process (fs.NewNodeFS + node Open/Read), no kernel mount",
 		"scheduling is perturbed (yields/sleeps drawn from the case), not enumerated; verdicts never depend on timing",
@@ -366,7 +372,11 @@ var spec = &hx.Spec[Case]{
 		"read:error", "read:after-failed-fetch", "read:after-failed-fetch-nonzero", "read:node", "conc", "conc:same-chunk", "save",
 		"restart:state=kept", "restart:state=deleted", "restart:state=earlier", "restart:state=garbage", "restart:state=wronglen",
 		"restart:cache=kept", "restart:cache=deleted", "restart:cache=truncated", "restart:cache=extended",
-		"restart:state-matches-nonempty", "read:after-restart-with-state", "preload", "preload:marked>0", "preload:fault-delivered", "mount", "fault-delivered", "chunk-missing"},
+		"restart:state-matches-nonempty", "read:after-restart-with-state", "preload", "preload:marked>0", "preload:fault-delivered", "mount", "fault-delivered", "chunk-missing",
+		"fault-kind:plain", "fault-kind:wraps-EOF", "fault-kind:fmt-wraps-EOF", "fault-kind:pkg-wraps-EOF", "fault-kind:url-wraps-EOF",
+		"fault-kind:unexpected-EOF", "fault-kind:chunk-missing", "fault-kind:chunk-invalid",
+		"node-read:fetch-failed:wraps-EOF", "node-read:fetch-failed:plain", "node-read:fetch-failed:reported",
+		"handle-read:fetch-failed:wraps-EOF", "handle-read:fetch-failed:plain"},
 	Gen:      genCase,
 	Run:      run,
 	Journal:  true,
@@ -418,6 +428,27 @@ func TestEnum(t *testing.T) {
 			}
 		}
 	}
+	// every fault kind x {handle ReadAt, node Read} x {first, middle, last chunk} x {range inside the
+	// chunk, whole chunk, range running past the chunk / the end}: failing read, then the same read again
+	spans := []struct{ off, l int }{{0, 3}, {7, 2}, {12, 4}} // chunks 0, 2 and 4 of the enumeration index
+	for k := 0; k < fkCount; k++ {
+		for _, node := range []bool{false, true} {
+			for _, sp := range spans {
+				for _, r := range []Read{{Off: int64(sp.off), Len: sp.l}, {Off: int64(sp.off + 1), Len: 1}, {Off: int64(sp.off + sp.l - 1), Len: 6}} {
+					r.Node = node
+					r2 := r
+					c := Case{Pieces: enumPieces(), Sizes: gen.Sizes{Min: 1, Avg: 2, Max: 4}, Tiled: true, FailGets: []int{1}, FaultKinds: []int{k},
+						Start: Op{Kind: "restart", State: "deleted", Cache: "deleted", Mount: true},
+						Ops:   []Op{{Kind: "read", R: &r}, {Kind: "read", R: &r2}}}
+					n++
+					if !hx.Case(t, spec, c) {
+						return
+					}
+				}
+			}
+		}
+	}
+	hx.Exhaustive("every injected error kind (7) x {SparseFileHandle.ReadAt, mount node Read} x {first, middle, last chunk} x {whole chunk, inside, running past its end}: failing read, then re-read")
 	hx.Note("enum_cases", n)
 	hx.Exhaustive(fmt.Sprintf("every (offset 0..%d, length 0..%d) read x {no fault, first fetch fails, all fetches fail until healed} on a 5-chunk index: read, heal, re-read, save, restart, read", L+2, L+2))
 }
